@@ -16,6 +16,7 @@ R03.6  = R04.3 (edit API invalidates, two-pass encode order).
 from __future__ import annotations
 
 import ast
+import re
 
 from ..core import (AnalysisError, Report, call_name, dotted, find_class, find_func, need,
                     norm, short)
@@ -139,17 +140,35 @@ def r03_2_3(rep: Report) -> None:
                and norm(n.targets[0]) == 'self.data_offset']
     if not assigns:
         rep.fail('R03.2', c, 'data_offset recomputed', 'post_encode no longer assigns data_offset', pe)
-    for a in assigns:
-        deps = _deps(pe, a.value)
-        want = {'moof.position', 'moof.size', 'mdat.header_size'}
-        base = any(d.endswith('base_data_offset') for d in deps)
-        if want <= deps and base:
+    # the value written is exactly (first payload byte) - (the base the served tfhd declares): a reader
+    # adds trun.data_offset to tfhd.base_data_offset, so any other base moves the samples
+    from ..core import lin_atoms
+    from ..flow import Disjunctive
+    from ..pathcond import PathCond as _PC, sym_values as _sv
+    _upd, _resolve = _sv(max_len=400, subst_calls=False)
+    forms: list[tuple[ast.AST, dict]] = []
+
+    def _on(st, states):
+        if isinstance(st, ast.Assign) and norm(st.targets[0]) == 'self.data_offset':
+            for state in states:
+                forms.append((st, lin_atoms(_resolve(state, st.value, calls=False))))
+    Flow(Disjunctive(_PC(upd=_upd), cap=128), on_stmt=_on).run(pe, [_PC.initial()])
+    for a, form in forms:
+        pos = {k for k, v in form.items() if v == 1}
+        neg = {k for k, v in form.items() if v == -1}
+        ok_ = pos == {'moof.position', 'moof.size', 'mdat.header_size'} and len(neg) == 1 and len(form) == 4 \
+            and re.fullmatch(r'.*tfhd.*\.base_data_offset', next(iter(neg))) is not None
+        if ok_:
             rep.ok('R03.2', c, 'data_offset recomputed',
-                   'from moof.position + moof.size + mdat.header_size - base_data_offset')
+                   'moof.position + moof.size + mdat.header_size - tfhd.base_data_offset')
         else:
+            shown = ' '.join(f'{"+" if v > 0 else "-"} {k}' for k, v in sorted(form.items()))
             rep.fail('R03.2', c, 'data_offset recomputed',
-                     f'the recomputed data_offset depends on {sorted(deps)}; it must be derived from '
-                     'the final moof.position, moof.size, mdat.header_size and base_data_offset', a)
+                     f'the recomputed data_offset is `{shown[:160]}`; it must be the first payload byte '
+                     '(moof.position + moof.size + mdat.header_size) minus the base the served tfhd declares '
+                     '(tfhd.base_data_offset): readers add the two', a)
+    if assigns and not forms:
+        raise AnalysisError('trun.post_encode: the data_offset assignment is not reached')
 
     def eq_atoms(atoms: set[str], fn: ast.FunctionDef, need_deps: set[str]) -> list[str]:
         """`x == y` atoms where one side depends (through locals) on all of need_deps"""
